@@ -81,6 +81,7 @@ NewCtl(c, i, p) ==
             !.started = (i :> FALSE) @@ @, !.done = (i :> FALSE) @@ @,
             !.rlatch = (i :> "unset") @@ @, !.llatch = (i :> "unset") @@ @,
             !.code = (i :> 0) @@ @, !.left = (i :> MaxLaunch) @@ @, !.owner = (i :> <<>>) @@ @,
+            !.fails[p] = 0,      \* a new Process object has new probers
             !.wg = @ + 1]
 
 RunInit ==      \* Run(): compute the run order
@@ -177,7 +178,7 @@ Launch(i) ==    \* setStateAndRun: run-context check, state and Commander.Start(
      ELSE \/ /\ ctl.left[i] > 0
              /\ S' = ApplyAll(S, << StateEv(P(i), i, "Running", S.exitCode[P(i)]),
                                     [ev |-> "Launch", p |-> P(i), i |-> i, t |-> ctl.now] >>)
-             /\ ctl' = [ctl EXCEPT !.ipc[i] = "running", !.left[i] = @ - 1, !.fails[P(i)] = 0]
+             /\ ctl' = [ctl EXCEPT !.ipc[i] = "running", !.left[i] = @ - 1]
           \/ /\ StartFailures
              /\ LET s1 == ApplyAll(S, << StateEv(P(i), i, "Running", S.exitCode[P(i)]),
                                         [ev |-> "StartFail", p |-> P(i), i |-> i, attempt |-> S.inst[i].launches + 1] >>)
@@ -220,7 +221,8 @@ ProbeFail(i) ==   \* the failure_threshold-th consecutive failure is fatal: inte
                                       exit |-> s1.exitCode[P(i)], health |-> "-", restarts |-> s1.restarts[P(i)]],
                                      [ev |-> "Signal", p |-> P(i), i |-> i, sig |-> 15, sinceStopUs |-> -1] >>)
            ELSE S' = s1
-        /\ ctl' = [ctl EXCEPT !.fails[P(i)] = n]
+        \* go-health keeps counting across natural restarts; stopping the probes (fatal -> internalStop) resets it
+        /\ ctl' = [ctl EXCEPT !.fails[P(i)] = IF fatal THEN 0 ELSE n]
 
 Reap(i) ==      \* Wait() returned; setExitCode
   /\ ctl.ipc[i] = "running" /\ ~Alive(i) /\ S.inst[i].exits = S.inst[i].launches
@@ -323,7 +325,8 @@ StopAct(s, c, t) ==
                           health |-> "-", restarts |-> s.restarts[p]],
                          [ev |-> "Signal", p |-> p, i |-> t, sig |-> 15, sinceStopUs |-> -1] >>),
           [c EXCEPT !.rlatch[t] = IF @ = "unset" /\ PCfg(s.cfg, p).hasReadyProbe THEN "aborted" ELSE @,
-                    !.llatch[t] = IF @ = "unset" THEN "aborted" ELSE @] >>
+                    !.llatch[t] = IF @ = "unset" THEN "aborted" ELSE @,
+                    !.fails[p] = 0] >>
 
 (***************************************************************************)
 (* ShutDownProject: lock, order, prepare, stop each (+ wait), return.      *)
